@@ -182,9 +182,9 @@ def complete_point(model, env, salt=0):
             n1, n2 = v.symbol.size1(), v.symbol.size2()
             if ix:
                 # expanded element of a generated symbol: same number as element ix of the vector
-                flat = ix[0] if (len(ix) == 1 or (len(ix) == 2 and ix[1] == 0)) else None
-                pt[nm] = _hashed(base, flat if flat is not None else hash(ix) % 1000, salt)
+                # element (i, j) of a generated matrix symbol is keyed i + 10007 * j (j = 0 for a column)
+                key = ix[0] + 10007 * (ix[1] if len(ix) > 1 else 0) if len(ix) <= 2 else hash(ix) % 1000
+                pt[nm] = _hashed(base, key, salt)
             else:
-                vals = [_hashed(nm, i, salt) for i in range(n1 * n2)]
-                pt[nm] = np.array(vals).reshape(n1, n2, order="F")
+                pt[nm] = np.array([[_hashed(nm, i + 10007 * j, salt) for j in range(n2)] for i in range(n1)]).reshape(n1, n2)
     return pt
